@@ -410,10 +410,10 @@ class CodeGenEnvironment(Environment):
         )
         if additional_globals is not None:
             for global_name, global_value in additional_globals.items():
-                if global_name in self.RESERVED_GLOBAL_NAMESPACES or global_name in self.RESERVED_GLOBAL_NAMES:
-                    raise RuntimeError(f'Additional global "{global_name}" uses a reserved global name')
+                reserved = global_name in self.RESERVED_GLOBAL_NAMESPACES or global_name in self.RESERVED_GLOBAL_NAMES
+                if reserved or (global_name in self.globals and not allow_filter_test_or_use_query_overwrite):
+                    raise RuntimeError(f'Additional global "{global_name}" uses a reserved or built-in global name')
                 self.globals[global_name] = global_value
-
         self._allow_replacements = allow_filter_test_or_use_query_overwrite
 
         for global_namespace in self.RESERVED_GLOBAL_NAMESPACES:
